@@ -1,5 +1,7 @@
 mod aisle;
 mod calls;
+mod docs;
+mod project;
 mod fraction;
 mod prec;
 mod sym;
@@ -14,6 +16,7 @@ fn main() {
         "aisle" => aisle::main(&args[1..]),
         "spans" => prec::main_spans(&args[1..]),
         "calls" => calls::main(&args[1..]),
+        "docs" => docs::main(&args[1..]),
         "fraction" => fraction::main(&args[1..]),
         "selfcheck" => println!("ok"),
         _ => {
